@@ -534,7 +534,7 @@ func genLen(r *rand.Rand, depth int) int {
 		return 1
 	case x < 60:
 		return 2 + r.Intn(9)
-	case x < 80 || depth > 1:
+	case x < 80 || depth > 1 || (depth == 1 && x < 95):
 		return []int{54, 55, 56, 57}[r.Intn(4)]
 	case x < 97 || depth > 0 || !bigLens:
 		return []int{254, 255, 256, 257}[r.Intn(4)]
@@ -628,10 +628,10 @@ func genCount(r *rand.Rand, depth int) int {
 		return 0
 	case x < 9:
 		return 1
-	case x < 18 || depth > 1:
+	case x < 18 || depth > 0:
 		return 2 + r.Intn(3)
 	default:
-		return 20 + r.Intn(50)
+		return 20 + r.Intn(40)
 	}
 }
 
